@@ -179,17 +179,24 @@ func theFixtures() *fixtures {
 type ed struct{ seed, blind, ctx, msg []byte }
 
 func drawEd(t *rapid.T) any {
-	return ed{gen.Bytes32().Draw(t, "seed"), gen.Bytes32().Draw(t, "blind"), rapid.SliceOfN(rapid.Byte(), 0, 40).Draw(t, "ctx"), rapid.SliceOfN(rapid.Byte(), 0, 80).Draw(t, "msg")}
+	return ed{gen.Bytes32().Draw(t, "seed"), gen.Bytes32().Draw(t, "blind"), gen.Bytes(t, 0, 40, "ctx"), gen.Bytes(t, 0, 80, "msg")}
 }
 
-type bytesIn struct{ name string; data []byte }
+type bytesIn struct {
+	name string
+	data []byte
+}
 
 func decoderOp(name, valid string, dec func([]byte) []byte) op {
 	return op{name: "decode/" + name,
 		prepare: func(t *rapid.T) any {
 			b := theFixtures().valid[valid]
-			if rapid.IntRange(0, 2).Draw(t, "mutate") == 0 {
+			switch gen.Uniform(t, 4, "mutate") {
+			case 0:
 				b, _ = gen.Mutate(t, b, nil, []int{0, 1, 2, 3})
+			case 1:
+				// a few bytes short: a decoder that trusts an announced length reads them from whatever lies behind the argument
+				b = b[:len(b)-gen.UniformRange(t, 1, 4, "tailcut")]
 			}
 			return bytesIn{name, b}
 		},
@@ -661,6 +668,124 @@ func TestHistories(t *testing.T) {
 		}
 		s.Nontrivial([]byte{byte(typ)}, sess.RequestBytes, []byte(fmt.Sprint(seq)))
 		s.Sample(func() any { return map[string]any{"type": typ, "sequence": seq} })
+	})
+}
+
+// TestRequestObjectReuse: encodings handed out by a request object survive decoding other values into it.
+func TestRequestObjectReuse(t *testing.T) {
+	s := rt.S("request-object-reuse").SetRule("one request object (types 1,2,3,5, inner request, generic batch) decodes a sequence of 2..5 drawn encodings (equal, shorter or longer than the previous one); after each decode Marshal() is called and its result held (same memory) and copied, as are the decoded fields; every held value must equal its copy after every later Unmarshal/Marshal on the object. non-trivial = sequence with >= 2 different encodings; distinct by the encodings")
+	f := theFixtures()
+	type kind struct {
+		name   string
+		gen    func(t *rapid.T) []byte
+		newObj func() interface {
+			Marshal() []byte
+			Unmarshal([]byte) bool
+		}
+	}
+	kinds := []kind{
+		{"type1", func(t *rapid.T) []byte {
+			return ref.EncodeBasicRequest(1, rapid.Byte().Draw(t, "kid"), rapid.SliceOfN(rapid.Byte(), 49, 49).Draw(t, "b"))
+		}, func() interface {
+			Marshal() []byte
+			Unmarshal([]byte) bool
+		} {
+			return new(type1.BasicPrivateTokenRequest)
+		}},
+		{"type2", func(t *rapid.T) []byte {
+			return ref.EncodeBasicRequest(2, rapid.Byte().Draw(t, "kid"), rapid.SliceOfN(rapid.Byte(), 256, 256).Draw(t, "b"))
+		}, func() interface {
+			Marshal() []byte
+			Unmarshal([]byte) bool
+		} {
+			return new(type2.BasicPublicTokenRequest)
+		}},
+		{"type3", func(t *rapid.T) []byte {
+			return ref.EncodeRateLimitedRequest(rapid.SliceOfN(rapid.Byte(), 49, 49).Draw(t, "rk"), gen.Bytes32().Draw(t, "nk"), gen.Bytes(t, 1, 300, "ct"), rapid.SliceOfN(rapid.Byte(), 96, 96).Draw(t, "sig"))
+		}, func() interface {
+			Marshal() []byte
+			Unmarshal([]byte) bool
+		} {
+			return new(type3.RateLimitedTokenRequest)
+		}},
+		{"type5", func(t *rapid.T) []byte {
+			n := gen.UniformRange(t, 0, 6, "elements")
+			els := make([][]byte, n)
+			for i := range els {
+				els[i] = gen.Bytes32().Draw(t, "el")
+			}
+			return ref.EncodeBatchedPrivateRequest(rapid.Byte().Draw(t, "kid"), els)
+		}, func() interface {
+			Marshal() []byte
+			Unmarshal([]byte) bool
+		} {
+			return new(type5.BatchedPrivateTokenRequest)
+		}},
+		{"inner", func(t *rapid.T) []byte {
+			return ref.EncodeInnerRequest(rapid.Byte().Draw(t, "kid"), rapid.SliceOfN(rapid.Byte(), 256, 256).Draw(t, "b"), make([]byte, 32*gen.UniformRange(t, 0, 4, "blocks")))
+		}, func() interface {
+			Marshal() []byte
+			Unmarshal([]byte) bool
+		} {
+			return new(type3.InnerTokenRequest)
+		}},
+		{"batch", func(t *rapid.T) []byte {
+			var reqs [][]byte
+			for i := gen.UniformRange(t, 1, 3, "n"); i > 0; i-- {
+				if rapid.Bool().Draw(t, "t1") {
+					reqs = append(reqs, f.valid["req1"])
+				} else {
+					reqs = append(reqs, f.valid["req2"])
+				}
+			}
+			return ref.EncodeBatchRequest(reqs)
+		}, func() interface {
+			Marshal() []byte
+			Unmarshal([]byte) bool
+		} {
+			return new(batched.BatchedTokenRequest)
+		}},
+	}
+	rt.Check(t, 300, 20000, func(t *rapid.T) {
+		k := gen.Pick(t, kinds, "kind")
+		n := gen.UniformRange(t, 2, 5, "decodes")
+		obj := k.newObj()
+		h := &holder{}
+		s.Eval()
+		s.Class(k.name)
+		var encs [][]byte
+		for i := 0; i < n; i++ {
+			enc := k.gen(t)
+			encs = append(encs, enc)
+			if !obj.Unmarshal(append([]byte{}, enc...)) {
+				t.Fatalf("harness: well-formed %s encoding rejected (C04's business)", k.name)
+			}
+			if rapid.Bool().Draw(t, "marshal") || i == 0 {
+				m := obj.Marshal()
+				h.hold(fmt.Sprintf("Marshal() after decode %d", i), m)
+			}
+			switch r := obj.(type) {
+			case *type1.BasicPrivateTokenRequest:
+				h.hold(fmt.Sprintf("BlindedReq after decode %d", i), r.BlindedReq)
+			case *type2.BasicPublicTokenRequest:
+				h.hold(fmt.Sprintf("BlindedReq after decode %d", i), r.BlindedReq)
+			case *type3.RateLimitedTokenRequest:
+				h.hold(fmt.Sprintf("EncryptedTokenRequest after decode %d", i), r.EncryptedTokenRequest)
+				h.hold(fmt.Sprintf("Signature after decode %d", i), r.Signature)
+			case *type5.BatchedPrivateTokenRequest:
+				for j, e := range r.BlindedReq {
+					h.hold(fmt.Sprintf("BlindedReq[%d] after decode %d", j, i), e)
+				}
+			}
+			if err := h.check(); err != nil {
+				rt.Fail(t, "C16/request-object-reuse/"+k.name, "after decoding encoding %d of %d into a reused %s request object: %v", i+1, n, k.name, err)
+				return
+			}
+		}
+		if len(encs) >= 2 && !bytes.Equal(encs[0], encs[1]) {
+			s.Nontrivial(append([][]byte{[]byte(k.name)}, encs...)...)
+		}
+		s.Sample(func() any { return map[string]any{"kind": k.name, "first": rt.Hex(encs[0]), "second": rt.Hex(encs[1])} })
 	})
 }
 
